@@ -58,4 +58,14 @@ theorem stringBody_quoteBody (s rest : Bytes) :
     simp only [adv_ok, List.length_append, List.singleton_append]
     congr 2; omega
 
+/-- the first byte of an escaped byte is never a quote -/
+theorem quoteByte_head (b : UInt8) : ∃ x xs, quoteByte b = x :: xs ∧ x ≠ 34 := by
+  unfold quoteByte
+  by_cases h1 : b = 34
+  · exact ⟨92, [34], by simp [h1], by decide⟩
+  repeat' split
+  all_goals first
+    | exact ⟨92, _, rfl, by decide⟩
+    | exact ⟨b, [], rfl, h1⟩
+
 end GqlModel.Lexer
